@@ -30,7 +30,8 @@ type ProcIn struct {
 	Second      string `json:"second,omitempty"`
 	SecondAfter int    `json:"second_after,omitempty"`
 	// what the endless and the short piece of work are: "" = tunnels through the tcp listener, "http" = requests,
-	// "ws" = websocket sessions (both through the http listener)
+	// "ws" = websocket sessions (both through the http listener), "grpc" = server-streaming calls through an
+	// additional grpc listener
 	Via string `json:"via,omitempty"`
 	// no plain tcp listener in the configuration: nothing forces proxy.Shutdown to take the whole wait (a
 	// tcp.Server always does), so the process ends as soon as the http side has drained
@@ -123,7 +124,7 @@ func runProcess(in *ProcIn) (*ProcOut, error) {
 		if in.NoTCP {
 			return nil, fmt.Errorf("%w: tunnels need the tcp listener", errEnvelope)
 		}
-	case "http", "ws":
+	case "http", "ws", "grpc":
 	default:
 		return nil, fmt.Errorf("%w: via %q", errEnvelope, in.Via)
 	}
@@ -144,13 +145,13 @@ func runProcess(in *ProcIn) (*ProcOut, error) {
 	if err != nil {
 		return nil, err
 	}
-	var addrs [4]string
+	var addrs [5]string
 	for i := range addrs {
 		if addrs[i], err = freeAddr(); err != nil {
 			return nil, err
 		}
 	}
-	httpA, tcpA, uiA, dynA := addrs[0], addrs[1], addrs[2], addrs[3]
+	httpA, tcpA, uiA, dynA, grpcA := addrs[0], addrs[1], addrs[2], addrs[3], addrs[4]
 	_, dynPort, _ := net.SplitHostPort(dynA)
 	_, tcpPort, _ := net.SplitHostPort(tcpA)
 	listen := httpA + ";proto=http"
@@ -158,6 +159,10 @@ func runProcess(in *ProcIn) (*ProcOut, error) {
 	if !in.NoTCP {
 		listen += "," + tcpA + ";proto=tcp"
 		routes += "\nroute add plain :" + tcpPort + " tcp://" + u.tcpAddr
+	}
+	if in.Via == "grpc" {
+		listen += "," + grpcA + ";proto=grpc"
+		routes += "\nroute add holdgrpc /verif.Hold grpc://" + u.grpcAddr + " opts \"proto=grpc\""
 	}
 	if in.Dynamic {
 		listen += fmt.Sprintf(",127.0.0.1:0;proto=tcp-dynamic;refresh=%dms", in.Refresh)
@@ -187,6 +192,9 @@ func runProcess(in *ProcIn) (*ProcOut, error) {
 	if !in.NoTCP {
 		ports = append(ports, tcpA)
 	}
+	if in.Via == "grpc" {
+		ports = append(ports, grpcA)
+	}
 	if in.Dynamic {
 		ports = append(ports, "127.0.0.1:"+dynPort)
 	}
@@ -199,11 +207,13 @@ func runProcess(in *ProcIn) (*ProcOut, error) {
 	start := func(it *item) {
 		switch in.Via {
 		case "http":
-			startWork("http", false, httpA, it)
+			startWork("http", false, httpA, false, it)
 		case "ws":
-			startWS("http", httpA, it)
+			startWS("http", httpA, false, it)
+		case "grpc":
+			startWork("grpc", false, grpcA, false, it)
 		default:
-			startWork("tcp", false, tcpA, it)
+			startWork("tcp", false, tcpA, false, it)
 		}
 	}
 	// a piece of work that never ends
@@ -331,8 +341,8 @@ func init() {
 		Gen: func(r *hx.Rand, i int) interface{} {
 			in := ProcIn{Wait: []int{900, 1200, 1500}[r.Intn(3)], Grace: []int{300, 450, 600}[r.Intn(3)]}
 			if i%6 >= 4 { // work through the http listener, with and without a tcp listener next to it
-				in.Via = []string{"http", "ws"}[i%2]
-				in.NoTCP = (i/6)%2 == 0
+				in.Via = []string{"http", "ws", "grpc"}[(i/6)%3]
+				in.NoTCP = i%2 == 0
 				return in
 			}
 			switch i % 6 {
